@@ -213,11 +213,26 @@ func setMatchedPrimitiveValue(kind reflect.Kind, value reflect.Value, v any) err
 	case reflect.Bool:
 		value.SetBool(v.(bool))
 	case reflect.Int, reflect.Int8, reflect.Int16, reflect.Int32, reflect.Int64:
-		value.SetInt(v.(int64))
+		iv := v.(int64)
+		if value.OverflowInt(iv) {
+			return fmt.Errorf("the value %d overflows %s", iv, value.Type())
+		}
+
+		value.SetInt(iv)
 	case reflect.Uint, reflect.Uint8, reflect.Uint16, reflect.Uint32, reflect.Uint64:
-		value.SetUint(v.(uint64))
+		uv := v.(uint64)
+		if value.OverflowUint(uv) {
+			return fmt.Errorf("the value %d overflows %s", uv, value.Type())
+		}
+
+		value.SetUint(uv)
 	case reflect.Float32, reflect.Float64:
-		value.SetFloat(v.(float64))
+		fv := v.(float64)
+		if overflowsFloat(value, fv) {
+			return fmt.Errorf("the value %v overflows %s", fv, value.Type())
+		}
+
+		value.SetFloat(fv)
 	case reflect.String:
 		value.SetString(v.(string))
 	default:
@@ -225,6 +240,12 @@ func setMatchedPrimitiveValue(kind reflect.Kind, value reflect.Value, v any) err
 	}
 
 	return nil
+}
+
+// overflowsFloat reports whether the finite fv becomes infinite when stored in value
+// (values that round to ±MaxFloat32 are fine, unlike with reflect.Value.OverflowFloat).
+func overflowsFloat(value reflect.Value, fv float64) bool {
+	return value.Kind() == reflect.Float32 && !math.IsInf(fv, 0) && math.IsInf(float64(float32(fv)), 0)
 }
 
 func toFloat64(v any) (float64, bool) {
